@@ -22,6 +22,9 @@ from sympy import Symbol, ccode, cse, diff, simplify
 from formak import ast_fragments as fragments
 from formak import common
 
+# Checked, see common.simplify
+simplify = common.simplify
+
 DEFAULT_MODULES = ("scipy", "numpy", "math")
 
 logger = logging.getLogger(__name__)
